@@ -38,6 +38,8 @@ Proof.
   - destruct (str_eqb a b) eqn:E; [apply str_eqb_eq in E; contradiction | reflexivity].
 Qed.
 
+Definition odefault {A} (d : A) (o : option A) : A := match o with Some x => x | None => d end.
+
 Definition option_eqb {A} (eqb : A -> A -> bool) (a b : option A) : bool :=
   match a, b with
   | None, None => true
